@@ -10,6 +10,11 @@ from concurrent.futures import ProcessPoolExecutor
 LEAVES = ["bool", "byte", "uint8", "uint16", "uint32", "uint64", "address", "string"]
 
 
+B9, B17 = ",".join(["bool"] * 9), ",".join(["bool"] * 17)
+BOOLRUN_SHAPES = [f"({B9},string)", f"(string,{B9})", f"({B17},uint8,string)", f"(uint16[],{B9},bool[])", f"({B9},uint64,{B9},string,bool)",
+                  f"(bool,string,{B17})", f"(({B9},string),uint8)", f"({B9},string)[]", f"({B9},(bool,string))"]
+
+
 # ---- type shapes (as ARC-4 strings) -----------------------------------------------------------------------
 def shapes_quick():
     out = list(LEAVES)
@@ -22,6 +27,7 @@ def shapes_quick():
             "(string,string,string)", "(uint16,(bool,string),byte[2])", "bool[17]", "(bool[3],bool)", "string[]", "string[2]",
             "(uint64,string)[]", "(bool,bool)[3]", "uint16[][]", "(uint8[],uint8[2],bool)", "()", "(())", "byte[0]", "(string)[]",
             "((bool,uint8),(string,bool))", "address[]", "(address,string,bool,bool)"]
+    out += BOOLRUN_SHAPES
     return out
 
 
@@ -120,6 +126,11 @@ def run_teal(teal):
 
 # ---- C06: encode -------------------------------------------------------------------------------------------------
 def encode_case(job):
+    from .e2e import with_big_stack
+    return with_big_stack(_encode_case, job)
+
+
+def _encode_case(job):
     shape, seed, version, in_sub = job
     from vf.core import use_repo
     use_repo()
@@ -219,6 +230,11 @@ def leaf_expected(sdk_t, v):
 
 
 def decode_case(job):
+    from .e2e import with_big_stack
+    return with_big_stack(_decode_case, job)
+
+
+def _decode_case(job):
     shape, seed, version, in_sub = job
     from vf.core import use_repo
     use_repo()
